@@ -10,7 +10,7 @@ import (
 
 func init() {
 	register(&PropDef{ID: "C19", Title: "Template providers: layered definitions, isolated views, cache-transparent", Rules: rulesC19,
-		Explanation: "Decided for both ghprovider.Provider and gtprovider.Provider (sibling implementations must agree): R1 the cache maps (layouts, views) are read and written only under their own mutex — reads included, so concurrent first requests cannot hit 'concurrent map read and map write'; R2 every template handed to the loader (and so to Parse) originates from Clone() or template.New in that build step, never from a cache or from another layer's shared template; R3 the view layer is cloned from Layout(...)'s result and the layout layer from Base()'s; R4 every store into a cache is on the isCached edge, stores a value the builder then returns, and no error return is reachable after it (a half-built template is never cached); the view cache key separates layout and view name by a non-empty constant; R5 the lock order view -> layout -> base is acyclic. " +
+		Explanation: "Decided for both ghprovider.Provider and gtprovider.Provider (sibling implementations must agree): R1 the cache maps (layouts, views) are read and written only under their own mutex — reads included, so concurrent first requests cannot hit 'concurrent map read and map write'; R2 every template handed to the loader (and so to Parse) originates from Clone() or template.New in that build step, never from a cache or from another layer's shared template; R3 the view layer is cloned from Layout(...)'s result and the layout layer from Base()'s; R4 every store into a cache is on the isCached edge, stores a value the builder then returns, and no error return is reachable after it (a half-built template is never cached); the view cache key separates layout and view name by a non-empty constant; R5 the lock order view -> layout -> base is acyclic; R7 (html provider) the private builders layout/view return only templates cloned in that build step, never the shared template of the layer below (html/template cannot Clone a set once it was executed). " +
 			"Added in round 2: R1 also requires that no method of a provider has a value receiver (that would lock a copy of the mutexes while the maps stay shared); R6 the walker that feeds the template loaders looks at entry names only to recognise '.'/'..' and leaves its listing loop early only with a non-nil error (a nested directory does not hide the entries after it). " +
 			"NOT decided: equivalence of rendered output with a reference renderer; html/template's own escaping state.",
 	})
@@ -103,6 +103,55 @@ func rulesC19(c *Ctx) {
 		if loaderCalls < 1 {
 			c.Bad("R2", short+" loader calls", 0, "no NewTemplateLoader call found; cannot certify")
 		}
+		// ---- R7 (html only) a layer hands out its own copy, never the shared template of the layer below ----
+		// html/template refuses to Clone a template set once any template of it was executed: a view or
+		// layout that *is* the shared lower-layer template gets executed by its caller, and every later
+		// build on that layer fails - with caching on, not with caching off
+		if strings.HasSuffix(pk, "ghprovider") {
+			n7 := 0
+			for _, f := range fns {
+				if f.Signature.Recv() == nil || f.Signature.Results().Len() < 1 || !strings.HasSuffix(f.Signature.Results().At(0).Type().String(), "html/template.Template") {
+					continue
+				}
+				lower := ""
+				switch {
+				case strings.HasSuffix(strings.ToLower(f.Name()), "view"):
+					lower = "Layout"
+				case strings.HasSuffix(strings.ToLower(f.Name()), "layout"):
+					lower = "Base"
+				}
+				if lower == "" || f.Object() == nil || f.Object().Exported() {
+					continue // the exported accessors return what the builder or the cache holds
+				}
+				n7++
+				bad := ""
+				ff := factsFor(f)
+				for _, ci := range Calls(f) {
+					lc, isCall := ci.Instr.(*ssa.Call)
+					if !isCall || ci.Static == nil || ci.Static.Signature.Recv() == nil || !strings.EqualFold(ci.Static.Name(), lower) || !strings.HasSuffix(fname(ci.Static), "(*Provider)."+ci.Static.Name()) {
+						continue
+					}
+					lerr := firstOr(resultN(lc, 1))
+					// every way from the lower layer's template to a successful return passes a Clone()
+					exits := MustPassF(f, lc, func(in ssa.Instruction) bool {
+						x := callInfo(in, nil, 0)
+						return x != nil && x.Static != nil && strings.HasSuffix(qualName(x.Static), "/template.(Template).Clone")
+					}, func(_ int, pred, succ *ssa.BasicBlock) bool {
+						return lerr == nil || !knownNilIn(factsOnEdge(ff, pred, succ), lerr, false)
+					})
+					for _, e := range exits {
+						r, isRet := e.Instr.(*ssa.Return)
+						if !isRet || isNilConst(resolve(r.Results[0])) {
+							continue
+						}
+						bad = "the return at " + c.pos(r.Pos()) + " can hand out the result of " + lower + "() itself (no Clone() on the way)"
+					}
+				}
+				c.Check(bad == "", "R7", fmt.Sprintf("%s hands out its own copy", fname(f)), f.Pos(), "every returned template comes from Clone()/New() of this build step",
+					bad+" — the shared "+lower+" template is executed by the caller, after which html/template cannot Clone it any more: later views of that layout fail with caching on and work with caching off")
+			}
+			c.Floor("R7", n7, 2)
+		}
 		// ---- R4 cache transparency ----
 		stI, ci := fieldIndex(T, "isCached")
 		_ = stI
@@ -181,6 +230,9 @@ func rulesC19(c *Ctx) {
 					}
 				case *ssa.Store:
 					if fa, ok := x.Addr.(*ssa.FieldAddr); ok && strings.HasSuffix(fieldName(fa), ".Provider.baseTemplate") && !freshBase(fa.X) {
+						if isNilConst(resolve(x.Val)) {
+							return // the slot is emptied (a flush), not filled: nothing cached can differ from what is built
+						}
 						val, what = x.Val, "baseTemplate"
 					}
 				}
